@@ -785,6 +785,41 @@ class Gen:
         if self.ops[-1]["k"] == "process":
             self.pool.append(self.pool[-1].copy())
 
+    def g_ephemeral(self):
+        """Two to four short-lived relations built on one pool entry, each evaluated and dropped (see executor)."""
+        r = self.rng
+        i = self.pick(lambda s: not s.pending)
+        if i is None:
+            return
+        sh = self.pool[i]
+        subs_list = []
+        for _ in range(r.randint(2, 4)):
+            n_ops, n_pool = len(self.ops), len(self.pool)
+            saved_fp, self.flags_p = self.flags_p, 0.0
+            self.force_last = True
+            subs = []
+            try:
+                base = len(self.pool)
+                # work on a scratch copy of the shadow so that the sub-operations are typed against the entry
+                self.pool.append(sh.copy())
+                for _ in range(r.randint(1, 2)):
+                    m = len(self.ops)
+                    getattr(self, "g_" + r.choice(["sel", "sel", "calc", "proj", "sort", "slice"]))()
+                    if len(self.ops) > m and self.ops[-1].get("t") == len(self.pool) - 2:
+                        o = {k: v for k, v in self.ops[-1].items() if k not in ("t", "shared")}
+                        subs.append(o)
+                    else:
+                        break
+            finally:
+                self.flags_p = saved_fp
+                self.force_last = False
+                del self.ops[n_ops:]
+                del self.pool[n_pool:]
+            if subs:
+                subs_list.append(subs)
+        if subs_list:
+            self.ops.append({"k": "ephemeral", "t": i, "subs": subs_list})
+
     def g_xfer(self):
         i = self.pick()
         if i is None:
@@ -836,7 +871,10 @@ class Gen:
         i = self.pick()
         if i is None:
             return
-        self.ops.append({"k": "diag", "t": i, "ex": self.rng.choice(["none", "truth", "truth", "real"])})
+        op = {"k": "diag", "t": i, "ex": self.rng.choice(["none", "truth", "truth", "real"])}
+        if op["ex"] == "truth" and self.rng.random() < 0.25:
+            op["fail_at"] = self.rng.choice([0, 0, 1, 2])       # the executor itself fails on its k-th call
+        self.ops.append(op)
 
     def g_attach(self):
         i = self.pick()
